@@ -26,7 +26,8 @@ Inductive case :=
 | KMatchS (defs : list (bool * patterns)) (paths : string)
     (* the same with short paths given as one string: hex, each path terminated by ',' *)
 | KBuild (is_prefix : bool) (ps : patterns) (vals : list bytes)
-| KQuote (protected : bytes) (s : bytes).
+| KQuote (protected : bytes) (s : bytes)
+| KQuoteS (protected : bytes) (inputs : string).   (* many inputs: hex, each terminated by ',' *)
 
 (* "2f61,2f,," -> [[47;97]; [47]; []] *)
 Fixpoint split_hex (s : string) (cur : bytes) : list bytes :=
@@ -138,12 +139,19 @@ Definition run_quote (prot s : bytes) : V :=
   | Val q => VT "quote" [VOpt VBytesS (requote q s)]
   end.
 
+Definition run_quotes (prot : bytes) (inputs : list bytes) : V :=
+  match quoter_new prot with
+  | Panic => VT "quotes" [VT "panic" []]
+  | Val q => VT "quotes" (map (fun s => VOpt VBytesS (requote q s)) inputs)
+  end.
+
 Definition run_C10_v (c : case) : V :=
   match c with
   | KMatch ds ps => run_match ds ps
   | KMatchS ds paths => run_match ds (map PBytes (split_hex paths []))
   | KBuild pre ps vals => run_build pre ps vals
   | KQuote prot s => run_quote prot s
+  | KQuoteS prot inputs => run_quotes prot (split_hex inputs [])
   end.
 
 (* what the harness compares: the canonical text of all observables *)
